@@ -262,6 +262,9 @@ class SeqGen:
                     ops.append({"op": "sq.addElement", "id": sub, "pos": p2, "el": eid})
                     if r.random() < seq_p:
                         ops.append({"op": "sq.setSeq", "id": sub, "pos": p2, "field": r.choice(["twait", "nrep", "jump_input", "jump_target", "goto"]), "v": r.randint(0, 3)})
+                if (n + p) % 3 == 0:
+                    # the subsequence carries channel delays of its own: inside a parent only the parent's count
+                    ops.append({"op": "sq.setDelay", "id": sub, "ch": chans[0], "v": enc((2 + (n % 3) * 2) / SR)})
                 ops.append({"op": "sq.addSub", "id": sid, "pos": p, "sub": sub})
                 info["subs"][p] = (sub, K)
             else:
